@@ -43,11 +43,16 @@ claim("C02", "DESIGN.md section 4 C02 + section 11",
       "Reference semantics Base/Eval.v is first-order and eager; hypotheses backend_ok/bok (fresh names and bound names are not backend function "
       "names; dictionaries are records) are part of the statement. Termination not proved (explicit fuel; OutOfFuel excluded by the statement).")
 claim("C14", "DESIGN.md section 4 C14 + section 11",
-      "proof (partial): Coq lemmas for every fuel/stack/counter that a constant in-range projection of a visited tuple/list/dict literal is replaced by "
-      "the selected component and that a pending definition reaches every use of its name; package-freedom decided on model outputs (Examples). "
-      "NOT proved: the chain-level theorem packaging_eliminated; it is checked by the node-kind oracle on generated disciplined chains "
-      "(function and method form through change_extension_functions_to_calls, 3 naming schemes) and by the model/code correspondence.",
-      "Stated over simp(ext(q)) as backends run it.")
+      "proof: Coq theorem packaging_eliminated (Proofs/SimplifyShape.v: shape_sound by strong induction on the fuel over the whole traversal, "
+      "on top of C02's invariants): the discipline of the property is typability has_shape in a shape system (atoms, tuples/lists, dictionaries "
+      "with constant str/int keys, sequences of packages; constant projections select component shapes; Select/Where/SelectMany bind their "
+      "parameter to the source's element shape; called lambdas bind argument shapes) and every typable query simplifies to the canonical form of "
+      "its shape - no Tuple/List/Dict node at all for an atom result, exactly the result package over package-free components otherwise - for "
+      "every chain length, operator order, nesting of packaging, projection path and binder names; plus the one-step projection lemmas. "
+      "Outside the theorem and stated in it: queries mentioning First (covered by the node-kind oracle and the exact model/code correspondence "
+      "on generated disciplined chains incl. First-wrapped packages, function and method form through change_extension_functions_to_calls, "
+      "3 naming schemes; one open known finding there), operator lambdas with other than one parameter, boolean dictionary keys.",
+      "Stated over the simplifier model; the oracle checks simp(ext(q)) as backends run it.")
 claim("C18", "DESIGN.md section 4 C18 + section 11",
       "proof (partial): Coq theorems that the dedicated index error arises exactly for a constant index outside a tuple/list literal, that non-constant, "
       "wrong-type, negative-in-range and absent-key selectors leave a proper node around the visited sub-terms (the model has no branch that builds a raw slot), "
